@@ -175,6 +175,10 @@ def _parse_open_file(file_obj, parse_options=None):
     headers = [''] * len(headers)
 
   rows = rows[data_offset:]
+  # Rows beyond the sample used for guessing headers may be wider; don't drop their extra cells.
+  max_width = max(len(row) for row in rows) if rows else 0
+  if max_width > len(headers):
+    headers = list(headers) + [''] * (max_width - len(headers))
   num_rows = parse_options.get('NUM_ROWS', 0)
   table_data_with_types = parse_data.get_table_data(rows, len(headers), num_rows)
 
